@@ -254,10 +254,21 @@ fn check_iso(rng: &mut Rng, out: &mut UnitResult) {
     let d = rng.range(1, 28) as u32;
     let (hh, mm, ss) = (rng.range(0, 23) as u32, rng.range(0, 59) as u32, rng.range(0, 59) as u32);
     let date = NaiveDate::from_ymd_opt(y, m, d).unwrap();
-    let time = NaiveTime::from_hms_opt(hh, mm, ss).unwrap();
-    let full = Data::DateTimeIso(format!("{:04}-{:02}-{:02}T{:02}:{:02}:{:02}", y, m, d, hh, mm, ss));
+    // optional fractional seconds (1..=9 digits)
+    let (frac_txt, nanos) = if rng.bool() {
+        let digits = 1 + rng.usize(9);
+        let v = rng.range(0, 10i64.pow(digits as u32) - 1) as u64;
+        (format!(".{:0w$}", v, w = digits), (v * 10u64.pow(9 - digits as u32)) as u32)
+    } else {
+        (String::new(), 0)
+    };
+    if nanos > 0 {
+        out.feat("iso_fractional_seconds");
+    }
+    let time = NaiveTime::from_hms_nano_opt(hh, mm, ss, nanos).unwrap();
+    let full = Data::DateTimeIso(format!("{:04}-{:02}-{:02}T{:02}:{:02}:{:02}{}", y, m, d, hh, mm, ss, frac_txt));
     let donly = Data::DateTimeIso(format!("{:04}-{:02}-{:02}", y, m, d));
-    let tonly = Data::DateTimeIso(format!("{:02}:{:02}:{:02}", hh, mm, ss));
+    let tonly = Data::DateTimeIso(format!("{:02}:{:02}:{:02}{}", hh, mm, ss, frac_txt));
     let dur = Data::DurationIso(format!("PT{:02}H{:02}M{:02}S", hh, mm, ss));
     let r = guard(|| {
         (
@@ -273,7 +284,7 @@ fn check_iso(rng: &mut Rng, out: &mut UnitResult) {
     match r {
         Ok((a, b, c, dd, tt, dt, dd2)) => {
             let secs = (hh * 3600 + mm * 60 + ss) as i64;
-            if a != Some(NaiveDateTime::new(date, time)) || b != Some(date) || c != Some(time) || dd != Some(date) || tt != Some(time) || dt != Some(time) || dd2 != Some(chrono::Duration::seconds(secs)) {
+            if a != Some(NaiveDateTime::new(date, time)) || b != Some(date) || c != Some(time) || dd != Some(date) || tt != Some(time) || dt != Some(NaiveTime::from_hms_opt(hh, mm, ss).unwrap()) || dd2 != Some(chrono::Duration::seconds(secs)) {
                 out.fail("c11|iso_strings", json!({"iso": full.to_string()}));
             }
         }
@@ -394,7 +405,7 @@ impl Prop for C11 {
         Some("every whole-day serial 0..=2958465 in the 1900 and the 1904 system".into())
     }
     fn mandatory(&self, _t: Tier) -> Vec<String> {
-        ["whole_day", "frac_ms", "frac_day_edge", "special", "duration", "plain_float", "plain_int", "iso", "monotone_pair", "end_to_end:xlsx:1900", "end_to_end:xlsx:1904", "end_to_end:xlsb:1900", "end_to_end:xlsb:1904", "end_to_end:xls:1900", "end_to_end:xls:1904"]
+        ["whole_day", "frac_ms", "frac_day_edge", "special", "duration", "plain_float", "plain_int", "iso", "monotone_pair", "iso_fractional_seconds", "end_to_end:xlsx:1900", "end_to_end:xlsx:1904", "end_to_end:xlsb:1900", "end_to_end:xlsb:1904", "end_to_end:xls:1900", "end_to_end:xls:1904"]
             .iter().map(|s| s.to_string()).collect()
     }
     fn run_unit(&self, ctx: &Ctx, unit: u64, out: &mut UnitResult) {
